@@ -68,6 +68,10 @@ type expect struct {
 }
 
 func checkRequest(rq sim.Request, want *expect) (sig, detail string, rawSpace bool) {
+	if rq.Resumed {
+		// anonymity below the request bytes: a resumed TLS session hands the server a ticket it issued on an earlier visit
+		return "tls-session-resumed", fmt.Sprintf("the connection to %s resumed an earlier TLS session: the server can link this fetch to a previous one", rq.Host), false
+	}
 	if rq.Listener == "canary" {
 		if len(rq.Raw) == 0 || sim.IsClientHello(rq.Raw) {
 			return "", "", false
